@@ -29,7 +29,13 @@ type Search struct {
 }
 
 func newSearch(db *DB, o Object, f []*indexedField, err error) *Search {
-	return &Search{db: db, object: o, fields: f, limit: math.MaxUint, err: err}
+	// f is most of the time a sub-slice of a live field index, we
+	// take a copy of it so that the search result is neither modified
+	// by subsequent index updates nor (when appending in Or) modifies
+	// the index itself
+	fields := make([]*indexedField, len(f))
+	copy(fields, f)
+	return &Search{db: db, object: o, fields: fields, limit: math.MaxUint, err: err}
 }
 
 // ExpectsZeroOrN checks that the number of results is the one expected or zero.
